@@ -23,9 +23,22 @@ def yamlOfJson (j : Json) : Except String Yaml := do
   let rules ← (← getArrL j "rules").mapM ruleOfJson
   pure ⟨apis, rules⟩
 
+def strsOfJson (j : Json) : Except String (List String) := do (← j.getArr?).toList.mapM fun m => m.getStr?
+
+/-- a service: `{"sub": [...], "methods": [...]}`, or (inputs of earlier rounds) the bare list of RPC names = API package -/
+def svcOfJson (j : Json) : Except String Svc :=
+  match j with
+  | Json.arr _ => do pure ⟨[], ← strsOfJson j⟩
+  | _ => do pure ⟨← strsOfJson (← j.getObjVal? "sub"), ← strsOfJson (← j.getObjVal? "methods")⟩
+
+/-- the whole API and the sub-package of the examined service ("view", default the API package): the model works on
+`FullApi.view`, the `api` object that service's templates are rendered with -/
 def apiOfJson (j : Json) : Except String Api := do
-  let svcs ← (← getArrL j "services").mapM fun s => do (← s.getArr?).toList.mapM fun m => m.getStr?
-  pure ⟨svcs⟩
+  let svcs ← (← getArrL j "services").mapM svcOfJson
+  let view ← match j.getObjVal? "view" with
+    | .ok v => strsOfJson v
+    | .error _ => pure []
+  pure ((⟨svcs⟩ : FullApi).view view)
 
 def reqOfJson (j : Json) : Except String Req := do
   (← j.getArr?).toList.mapM fun kv => do
